@@ -373,9 +373,11 @@ func (tt *TermTable) BVBin(op string, a, b *Term) *Term {
 			return tt.BV(v, w)
 		}
 	}
-	if op == "bvadd" && (a.Op == "bvadd" || b.Op == "bvadd") {
-		if r := tt.addNormal(a, b); r != nil {
-			return r
+	if op == "bvadd" || op == "bvsub" {
+		if lin(a) || lin(b) {
+			if r := tt.linNormal(op, a, b); r != nil {
+				return r
+			}
 		}
 	}
 	switch op {
@@ -450,7 +452,107 @@ func (tt *TermTable) BVNeg(a *Term) *Term {
 	if a.IsConst() {
 		return tt.BV(-a.V, a.S.W)
 	}
+	if lin(a) {
+		if r := tt.linNormal("bvsub", tt.BV(0, a.S.W), a); r != nil {
+			return r
+		}
+	}
 	return tt.mk("bvneg", a.S, 0, 0, 0, "", a)
+}
+
+func lin(t *Term) bool { return t.Op == "bvadd" || t.Op == "bvsub" || t.Op == "bvneg" }
+
+// linNormal puts a linear combination (built from bvadd, bvsub, bvneg and
+// constants) into a canonical form: operands flattened into coefficients
+// modulo 2^w, cancelled, sorted by term id and rebuilt as
+// (sum of positive terms) - negative terms + constant, so that combinations
+// that are equal as linear forms become the same term. Coefficients other than
+// +1 / -1 are rebuilt as repeated additions (they are small: they come from the
+// same value being added several times).
+func (tt *TermTable) linNormal(op string, a, b *Term) *Term {
+	w := a.S.W
+	m := mask(w)
+	coef := map[*Term]uint64{}
+	var vars []*Term
+	var c uint64
+	n := 0
+	var flat func(t *Term, k uint64) bool
+	flat = func(t *Term, k uint64) bool {
+		n++
+		if n > 96 {
+			return false
+		}
+		switch t.Op {
+		case "bvadd":
+			return flat(t.Args[0], k) && flat(t.Args[1], k)
+		case "bvsub":
+			return flat(t.Args[0], k) && flat(t.Args[1], -k)
+		case "bvneg":
+			return flat(t.Args[0], -k)
+		case "const":
+			c += k * t.V
+		default:
+			if _, ok := coef[t]; !ok {
+				vars = append(vars, t)
+			}
+			coef[t] += k
+		}
+		return true
+	}
+	kb := uint64(1)
+	if op == "bvsub" {
+		kb = ^uint64(0) // -1
+	}
+	if !flat(a, 1) || !flat(b, kb) {
+		return nil
+	}
+	for i := 1; i < len(vars); i++ {
+		for j := i; j > 0 && vars[j-1].id > vars[j].id; j-- {
+			vars[j-1], vars[j] = vars[j], vars[j-1]
+		}
+	}
+	var res *Term
+	var negs []*Term
+	for _, v := range vars {
+		k := coef[v] & m
+		switch {
+		case k == 0:
+		case k <= 8:
+			for i := uint64(0); i < k; i++ {
+				if res == nil {
+					res = v
+				} else {
+					res = tt.mk("bvadd", v.S, 0, 0, 0, "", res, v)
+				}
+			}
+		case (-k)&m <= 8:
+			for i := uint64(0); i < (-k)&m; i++ {
+				negs = append(negs, v)
+			}
+		default:
+			return nil // an unusual coefficient: leave the term as it is
+		}
+	}
+	c &= m
+	for _, v := range negs {
+		if res == nil {
+			if c != 0 {
+				res = tt.BV(c, w)
+				c = 0
+			} else {
+				res = tt.mk("bvneg", v.S, 0, 0, 0, "", v)
+				continue
+			}
+		}
+		res = tt.mk("bvsub", v.S, 0, 0, 0, "", res, v)
+	}
+	if res == nil {
+		return tt.BV(c, w)
+	}
+	if c != 0 {
+		res = tt.mk("bvadd", res.S, 0, 0, 0, "", res, tt.BV(c, w))
+	}
+	return res
 }
 
 // BVCmp: op in bvult bvule bvslt bvsle.
